@@ -258,7 +258,11 @@ def style_child():
                 st.border_style.style = Style().fg("red")
     out = {}
     for name in spec["render"]:
-        st = created.get(name) or getattr(TableStyle, name)()
+        if name.startswith("fresh:"):
+            # a second, newly created instance of the style that was customised
+            st = getattr(TableStyle, name[6:])()
+        else:
+            st = created.get(name) or getattr(TableStyle, name)()
         t = Table(st)
         t.set_header_row(["Head", "Second column"])
         t.add_row(["a", "some text here"])
@@ -288,7 +292,7 @@ def run_styles(sh, orders, customs):
     for order in orders:
         for cust_name in customs:
             for what in CUSTOMISATIONS[1:] if cust_name else ["none"]:
-                spec = {"order": list(order), "customise": [cust_name, what] if cust_name else None, "render": [n for n in STYLE_NAMES if n != cust_name]}
+                spec = {"order": list(order), "customise": [cust_name, what] if cust_name else None, "render": [n for n in STYLE_NAMES if n != cust_name] + (["fresh:" + cust_name] if cust_name else [])}
                 rec = dict(spec, kind="styles")
                 sh.case(("styles", tuple(order), cust_name, what), True)
                 try:
@@ -298,9 +302,9 @@ def run_styles(sh, orders, customs):
                     return
                 sh.count("style_orders")
                 for name, text in got.items():
-                    if text != pristine[name]:
+                    if text != pristine[name.replace("fresh:", "")]:
                         sh.violate("style-interference", rec, "after creating %r and customising %r (%s) a table with style %r renders as %r, in a pristine process %r" % (
-                            list(order), cust_name, what, name, text[:90], pristine[name][:90]))
+                            list(order), cust_name, what, name, text[:90], pristine[name.replace("fresh:", "")][:90]))
                         break
     sh.sample({"kind": "styles", "order": list(orders[0]), "customise": [customs[-1], "vertical-chars"]})
 
